@@ -4,6 +4,7 @@
  * Environment: vbi_send_event logs a snapshot of every event; vbi_chsw_reset (= cache of the old
  * station dropped) logs its calls; station table = 3 entries of the real struct type. */
 #define WITH_830
+#define G_DEC
 #define PKT_OWN_CNI_TABLE
 #define PKT_EVENT_HOOK c13_event
 #include "h_packet.c"
